@@ -193,7 +193,7 @@ def run_seq(outdir, seed, nseq, nops, size=4000, profile='generic', par=8, extra
     # with the amount of work, so that a loaded machine does not turn a large thorough workload into an alarm)
     rc, o, e = harness(['seq', '-seed', str(seed), '-nseq', str(nseq), '-nops', str(nops), '-size', str(size),
                         '-profile', profile, '-out', outdir, '-par', str(par)] + (extra or []),
-                       timeout=max(1200, nseq * nops // 40))
+                       timeout=max(1800, nseq * nops // 8))
     res = []
     try:
         res = json.loads(o)
